@@ -286,3 +286,79 @@ Print Assumptions C02_repair_encrypted_cut_sound.
 Print Assumptions C02_repair_sound_read_only.
 Print Assumptions C02_example_encrypted_cut.
 Print Assumptions C02_example_encrypted_cut_values.
+(* ====================================================================================
+   Compressed archives: the fail-safe decompression reader (model theories/CompFailSafe.v of
+   CompressionLayerFailSafeReader; brotli's streaming decoder enters as an abstract step
+   function under the explicit DecoderLaws of theories/CompFailSafeProofs.v, every one of
+   which the harness job c02-comp observes on the real decoder).  `run D fin bs w` packs a
+   decoder satisfying the laws, an inner source delivering the available bytes w in order
+   with any short reads, the client's read sizes (> 0) and fuel (2|w|+2 passes per read,
+   |plaintext|+1 reads); run_result is CompFailSafe.fs_read_all: everything delivered until
+   the first Ok(0) / error, and how it ended.  bs: the compressed blocks (c_i, p_i); tail:
+   the bytes that follow them (the SizesInfo footer), of which a fresh decoder makes nothing.
+   ==================================================================================== *)
+From MLA Require Import CompFailSafe CompFailSafeProofs CompFailSafeStep CompFailSafeThms CompFailSafeToy.
+
+(* every truncation of the wire, any source schedule, any read sizes: the reader terminates
+   with Ok(0) / UnexpectedEof / InvalidData (never a crash), and what it delivered is a
+   prefix of the plaintext *)
+Theorem C02_fs_comp_prefix :
+  forall BLOCK FSBUF : N, 0 < FSBUF -> BLOCK < 2 ^ 32 ->
+  forall (D : bytes -> bytes) (fin : bytes -> bool) (tail : bytes), dead D fin tail ->
+  forall bs : list (bytes * bytes), Forall (good_block BLOCK D fin) bs ->
+  forall (w : bytes) (r : run D fin bs w), prefix w (wire_of tail bs) ->
+    exists (out : bytes) (e : res unit),
+      run_result BLOCK FSBUF D fin bs r = (out, e) /\ fs_end e /\ prefix out (plain_of bs).
+Proof. exact fs_comp_prefix. Qed.
+
+(* D4-D6: with the blocks b1 wholly available and a proper prefix c' of the next one, the
+   reader delivers ALL of it: the plaintext of b1, then everything decodable from c' *)
+Theorem C02_fs_comp_maximal :
+  forall BLOCK FSBUF : N, 0 < FSBUF -> BLOCK < 2 ^ 32 ->
+  forall (D : bytes -> bytes) (fin : bytes -> bool) (tail : bytes), dead D fin tail ->
+  forall bs : list (bytes * bytes), Forall (good_block BLOCK D fin) bs ->
+  forall (b1 : list (bytes * bytes)) (c p : bytes) (b2 : list (bytes * bytes)) (c' : bytes)
+         (r : run D fin bs (concat (map fst b1) ++ c')),
+    bs = b1 ++ (c, p) :: b2 -> prefix c' c -> len c' < len c ->
+    exists e : res unit, run_result BLOCK FSBUF D fin bs r = (plain_of b1 ++ D c', e) /\ fs_end e.
+Proof. exact fs_comp_maximal. Qed.
+
+(* the general form: the total output is fs_spec of the available bytes *)
+Theorem C02_fs_comp_exact :
+  forall BLOCK FSBUF : N, 0 < FSBUF -> BLOCK < 2 ^ 32 ->
+  forall (D : bytes -> bytes) (fin : bytes -> bool) (tail : bytes), dead D fin tail ->
+  forall bs : list (bytes * bytes), Forall (good_block BLOCK D fin) bs ->
+  forall (w : bytes) (r : run D fin bs w), prefix w (wire_of tail bs) ->
+    exists e : res unit, run_result BLOCK FSBUF D fin bs r = (fs_spec D bs w, e) /\ fs_end e.
+Proof. exact fs_comp_exact. Qed.
+
+(* non-vacuity: a toy codec ([n] ++ n payload bytes; first byte >= 128 invalid) satisfies the
+   laws; BLOCK = 8, FSBUF = 4, three blocks of 8, 8, 4 bytes and a 3-byte tail *)
+Example C02_fs_comp_example_hyps :
+  DecoderLaws tinit tstep tD tfin /\ Forall (good_block 8 tD tfin) fsx_bs /\ dead tD tfin fsx_tail /\
+  len fsx_wire = 26.
+Proof. split; [exact toy_laws|]. split; [exact fsx_good|]. split; [exact fsx_dead | reflexivity]. Qed.
+(* cut inside block 1, one inner byte per read, reads of 3: block 0 and the 5 payload bytes present *)
+Example C02_fs_comp_example_cut :
+  run_result 8 4 tD tfin fsx_bs (fsx_run (takeN 15 fsx_wire) [1] 2)
+    = ([1; 2; 3; 4; 5; 6; 7; 8; 9; 10; 11; 12; 13], Err EUnexpectedEof) /\
+  (exists e, run_result 8 4 tD tfin fsx_bs (fsx_run (takeN 15 fsx_wire) [1] 2)
+             = (fs_spec tD fsx_bs (takeN 15 fsx_wire), e) /\ fs_end e).
+Proof.
+  split; [vm_compute; reflexivity|].
+  apply (C02_fs_comp_exact 8 4 ltac:(lia) ltac:(lia) tD tfin fsx_tail fsx_dead fsx_bs fsx_good).
+  apply prefix_takeN.
+Qed.
+(* cut at a block end: Ok(0); inside the tail: the fresh decoder fails, everything was delivered *)
+Example C02_fs_comp_example_ends :
+  run_result 8 4 tD tfin fsx_bs (fsx_run (takeN 9 fsx_wire) [] 0) = ([1; 2; 3; 4; 5; 6; 7; 8], Ok tt) /\
+  run_result 8 4 tD tfin fsx_bs (fsx_run (takeN 10 fsx_wire) [2] 6) = ([1; 2; 3; 4; 5; 6; 7; 8], Ok tt) /\
+  run_result 8 4 tD tfin fsx_bs (fsx_run (takeN 24 fsx_wire) [3] 4) = (plain_of fsx_bs, Err EInval).
+Proof. vm_compute. repeat split; reflexivity. Qed.
+
+Print Assumptions C02_fs_comp_prefix.
+Print Assumptions C02_fs_comp_maximal.
+Print Assumptions C02_fs_comp_exact.
+Print Assumptions C02_fs_comp_example_hyps.
+Print Assumptions C02_fs_comp_example_cut.
+Print Assumptions C02_fs_comp_example_ends.
